@@ -9,7 +9,7 @@ import z3
 from . import common, lib  # noqa
 from . import C16 as _c16  # noqa  (BaseSolver class fields)
 
-P = Property('C20', 'proof',
+P = Property('C20', 'other',
              'What a contract on the generator can reach: IterativeMachineGenerator.GenerateEquations on its real AST (the variable vector handed to the template '
              'lists every simultaneous, lagged and exogenous variable exactly once and in order, the equation list is parallel to it, the table columns are the '
              'non-lagged ones) and BaseSolver.CreateCsvString (the header is the variable list with the time axis moved to the front, nothing else reordered, '
